@@ -154,7 +154,18 @@ func customFunc(n *Node) func(t *sp.Task) {
 				s.Shell.CustomEnd(o, 1)
 				sp.Fail("Go function of task " + o.Key + " cannot open its input " + ip.Path())
 			}
-			inData = append(inData, ip.Read())
+			if s.Tape.Choose(simrt.StAPI, 2, 0) == 1 {
+				// (the same through a file handle; the size as the library reports it)
+				fh := ip.Open()
+				b := make([]byte, ip.Size())
+				if n, _ := fh.Read(b); n != len(b) {
+					sp.Fail(fmt.Sprintf("short read of %s: %d of %d bytes", ip.Path(), n, len(b)))
+				}
+				fh.Close()
+				inData = append(inData, b)
+			} else {
+				inData = append(inData, ip.Read())
+			}
 		}
 		s.SleepNS(o.DurNS)
 		if node.Nest > 0 && len(inPaths) > 0 {
@@ -223,7 +234,32 @@ func miniWorkflow(name string, slots int, inPath string, proc string) *sp.Workfl
 
 // Build constructs the workflow. Everything here is public scipipe API.
 func Build(w *WF, rt *Runtime) *sp.Workflow {
-	wf := sp.NewWorkflow(w.Name, w.MaxTasks)
+	// equivalent ways of saying the same thing with the public API, tape-chosen
+	// (0 = the usual one): connections made from the receiving or the sending
+	// side, the log file named explicitly
+	api := simrt.S.Tape.Choose(simrt.StAPI, 4, 0)
+	var wf *sp.Workflow
+	if w.FullLogging && simrt.S.Tape.Choose(simrt.StAPI, 2, 0) == 1 {
+		wf = sp.NewWorkflowCustomLogFile(w.Name, w.MaxTasks, "log/custom-"+w.Name+".log")
+	} else {
+		wf = sp.NewWorkflow(w.Name, w.MaxTasks)
+	}
+	nconn := 0
+	connect := func(in *sp.InPort, up *sp.OutPort) {
+		nconn++
+		if api == 1 || (api == 2 && nconn%2 == 0) {
+			up.To(in)
+		} else {
+			in.From(up)
+		}
+	}
+	connectP := func(in *sp.InParamPort, up *sp.OutParamPort) {
+		if api == 1 || api == 3 {
+			up.To(in)
+		} else {
+			in.From(up)
+		}
+	}
 	rt.WF = wf
 	procs := make([]outPorter, len(w.Nodes))
 	plain := make([]*sp.Process, len(w.Nodes))
@@ -278,10 +314,10 @@ func Build(w *WF, rt *Runtime) *sp.Workflow {
 					if w.Nodes[e.Node].Rec {
 						recN++
 						r := newRecorder(wf, fmt.Sprintf("rec%d", recN), recKey(w.Nodes[e.Node].Name, e.Port, n.Name, in.Name), rt)
-						r.InPort("in").From(up)
-						p.In(in.Name).From(r.OutPort("out"))
+						connect(r.InPort("in"), up)
+						connect(p.In(in.Name), r.OutPort("out"))
 					} else {
-						p.In(in.Name).From(up)
+						connect(p.In(in.Name), up)
 					}
 				}
 			}
@@ -290,7 +326,7 @@ func Build(w *WF, rt *Runtime) *sp.Workflow {
 					continue
 				}
 				if ps.From != nil {
-					p.InParam(ps.Name).From(procs[ps.From.Node].OutParamPort(ps.From.Port))
+					connectP(p.InParam(ps.Name), procs[ps.From.Node].OutParamPort(ps.From.Port))
 				}
 				if ps.From == nil || len(ps.Vals) > 0 {
 					// (both: the port is fed by an upstream process AND by FromStr)
